@@ -9,7 +9,7 @@ ID = "C18"
 LEVEL = "fault_enumeration"
 RULE = ("trees with two groups in nested directories and names with spaces x DIR in {outside the tree, inside the scanned "
         "tree, on another device, relative, relative with `move` started from another directory than `group`, relative with a '..' that follows a symlinked component, absolute, with trailing slash} x pre-population of the target {nothing, "
-        "colliding file, colliding directory, colliding dangling symlink, colliding symlink to a file} (plain runs); and "
+        "colliding file, colliding directory, colliding dangling symlink, colliding symlink to a file, colliding named pipe} (plain runs); and "
         "for the same-device and other-device targets, empty and colliding: EVERY event k of the recorded mutating-call "
         "history with a SIGKILL before k and with call k failing with EXDEV, EIO, ENOSPC (thorough: + EPERM, EACCES). "
         "Oracle: target = DIR/<absolute source path without the leading '/'>, distinct targets, parents created, bytes "
@@ -29,7 +29,7 @@ TREE = [
     {"p": "r/m/caf\udce9", "k": "file", "c": ["base", 300, 3]},
 ]
 PLACEMENTS = ["outside", "inside", "other_device", "relative", "relative_other_cwd", "dotdot_through_symlink", "trailing_slash", "other_mount"]
-PREPOP = ["empty", "file", "dir", "dangling_symlink", "symlink_to_file"]
+PREPOP = ["empty", "file", "dir", "dangling_symlink", "symlink_to_file", "fifo"]
 
 
 def prepare(tier):
@@ -134,6 +134,8 @@ def _evaluate(case):
                     os.makedirs(tp)
                     with open(os.path.join(tp, "inner"), "wb") as f:
                         f.write(b"inner")
+                elif pp == "fifo":
+                    os.mkfifo(tp)          # a special file (named pipe) in the way
                 elif pp == "dangling_symlink":
                     os.symlink(outside_victim, tp)
                 elif pp == "symlink_to_file":
